@@ -73,6 +73,18 @@ class Normalizer(ast.NodeTransformer):
         self.generic_visit(node)
         return node
 
+    # N44: `with suppress(E): BODY` is `try: BODY / except E: pass`
+    def visit_With(self, node):
+        self.generic_visit(node)
+        if len(node.items) == 1 and node.items[0].optional_vars is None and isinstance(node.items[0].context_expr, ast.Call) \
+                and ast.unparse(node.items[0].context_expr.func) in ('suppress', 'contextlib.suppress') and node.items[0].context_expr.args and not node.items[0].context_expr.keywords:
+            a = node.items[0].context_expr.args
+            typ = a[0] if len(a) == 1 else ast.Tuple(elts=list(a), ctx=ast.Load())
+            self.counts['suppress_to_try'] = self.counts.get('suppress_to_try', 0) + 1
+            new = ast.Try(body=node.body, handlers=[ast.ExceptHandler(type=typ, name=None, body=[ast.Pass()])], orelse=[], finalbody=[])
+            return ast.fix_missing_locations(ast.copy_location(new, node))
+        return node
+
     def visit_AnnAssign(self, node):
         self.counts['annotations'] += 1
         if node.value is None:
@@ -1479,6 +1491,55 @@ def loop_target_unpacking(tree):
     return count[0]
 
 
+def partials_to_calls(tree):
+    """N45  `p = partial(F, a, k=b)` (bound once, only ever called; a, b plain names / attributes / constants that are not re-bound afterwards) makes
+    `p(x, m=y)` the call `F(a, x, k=b, m=y)`"""
+    import copy
+    count = [0]
+    for fn in [n for n in ast.walk(tree) if isinstance(n, (ast.FunctionDef, ast.AsyncFunctionDef))]:
+        for blk_holder in list(ast.walk(fn)):
+            for fld in ('body', 'orelse', 'finalbody'):
+                blk = getattr(blk_holder, fld, None)
+                if not isinstance(blk, list):
+                    continue
+                for k, st in enumerate(list(blk)):
+                    if not (isinstance(st, ast.Assign) and len(st.targets) == 1 and isinstance(st.targets[0], ast.Name) and isinstance(st.value, ast.Call)
+                            and ast.unparse(st.value.func) in ('partial', 'functools.partial') and st.value.args):
+                        continue
+                    nm = st.targets[0].id
+                    c = st.value
+                    if any(isinstance(a, ast.Starred) for a in c.args) or any(kw.arg is None for kw in c.keywords):
+                        continue
+
+                    def simple(e):
+                        return isinstance(e, (ast.Name, ast.Constant)) or (isinstance(e, ast.Attribute) and simple(e.value))
+                    bound = list(c.args[1:]) + [kw.value for kw in c.keywords]
+                    if not simple(c.args[0]) or not all(simple(b) for b in bound):
+                        continue
+                    stores = [n for n in ast.walk(fn) if isinstance(n, ast.Name) and n.id == nm and isinstance(n.ctx, (ast.Store, ast.Del))]
+                    loads = [n for n in ast.walk(fn) if isinstance(n, ast.Name) and n.id == nm and isinstance(n.ctx, ast.Load)]
+                    calls = [x for x in ast.walk(fn) if isinstance(x, ast.Call) and isinstance(x.func, ast.Name) and x.func.id == nm]
+                    if len(stores) != 1 or not loads or len(calls) != len(loads):
+                        continue
+                    bnames = {n.id for b in bound + [c.args[0]] for n in ast.walk(b) if isinstance(n, ast.Name)}
+                    later_stores = [n for n in ast.walk(fn) if isinstance(n, ast.Name) and n.id in bnames and isinstance(n.ctx, (ast.Store, ast.Del)) and getattr(n, 'lineno', 0) > st.lineno]
+                    if later_stores:
+                        continue
+                    for x in calls:
+                        if any(kw.arg is None for kw in x.keywords) or {kw.arg for kw in x.keywords} & {kw.arg for kw in c.keywords}:
+                            break
+                    else:
+                        for x in calls:
+                            x.func = copy.deepcopy(c.args[0])
+                            x.args = [copy.deepcopy(a) for a in c.args[1:]] + list(x.args)
+                            x.keywords = [copy.deepcopy(kw) for kw in c.keywords] + list(x.keywords)
+                        blk.remove(st)
+                        if not blk:
+                            blk.append(ast.copy_location(ast.Pass(), st))
+                        count[0] += 1
+    return count[0]
+
+
 def merge_twin_branches(tree):
     """N30: `if c: T(A) else: T(B)` where both arms are the same single statement up to one sub-expression (the same call / assignment with
     one differing argument or value) -> `T(A if c else B)`."""
@@ -1563,6 +1624,7 @@ def normalize(tree):
     n = Normalizer()
     tree = n.visit(tree)
     n.counts['iterate_self'] = iterate_self(tree)
+    n.counts['partials'] = partials_to_calls(tree)
     n.counts['zip_of_maps'] = zip_of_maps(tree)
     n.counts['generators_to_loops'] = generators_to_loops(tree)
     n.counts['any_counters'] = any_to_loop_and_counters_to_enumerate(tree)
